@@ -1,6 +1,8 @@
 """C14 - lines name the process the dump declares for the thread; columns compose."""
 from __future__ import annotations
 
+import ast
+
 from typing import Dict, List, Optional, Set
 
 from .. import pipeline, decoders, render, sym
@@ -145,6 +147,14 @@ def check(repo: Repo, run: Run) -> None:
         rec = interp.run(pk.module, fn, self_cls=pk)
         if rec.notes:
             raise AnalysisError(f"{name}: unsupported construct {rec.notes[0]}")
+        gen_calls = [x for x in sym.walk(rec.return_term()) if x.op == "call" and x.a[0].op == "attr" and x.a[0].a[0] == SELF
+                     and x.a[0].a[1] in pk.methods and any(isinstance(y, (ast.Yield, ast.YieldFrom)) for y in ast.walk(pk.methods[x.a[0].a[1]]))]
+        if gen_calls:
+            # the line is joined from a stream of columns produced by generator methods (`''.join(self._columns(x))`): which
+            # columns it has, in which order and under which switch is not read off that
+            deferred = deferred or AnalysisError(f"{name} joins the columns produced by the generator {gen_calls[0].a[0].a[1]}(): the "
+                                                 f"column structure of the line is not decided")
+            continue
         segs = render.flatten(accumulator_of(rec.return_term()))
         cols = []
         i = 0
@@ -279,6 +289,13 @@ def check(repo: Repo, run: Run) -> None:
         rec = interp.run(pk.module, fp, self_cls=pk)
         tid = param(fp.args.args[1].arg)
         ret = rec.return_term()
+
+        def _generator_joined(t_):
+            return [x for x in sym.walk(t_) if x.op == "call" and x.a[0].op == "attr" and x.a[0].a[0] == SELF
+                    and x.a[0].a[1] in pk.methods and any(isinstance(y, (ast.Yield, ast.YieldFrom)) for y in ast.walk(pk.methods[x.a[0].a[1]]))]
+        if _generator_joined(ret):
+            raise AnalysisError(f"{fp.name} joins the pieces produced by the generator {_generator_joined(ret)[0].a[0].a[1]}(): how an "
+                                f"undeclared thread is reported is not decided")
         ok = False
         detail = sym.pretty(ret)[:200]
         if ret.op == "ite":
@@ -312,6 +329,8 @@ def check(repo: Repo, run: Run) -> None:
             rec = interp.run(pk.module, fn, self_cls=pk)
             obj = param(fn.args.args[1].arg)
             want = T("attr", (obj, "tid")) if tid_src == "tid" else T("attr", (T("sub", (T("attr", (obj, "ktraces")), const(0))), "tid"))
+            if _generator_joined(rec.return_term()):
+                raise AnalysisError(f"{name} joins the columns produced by a generator: where its process column comes from is not decided")
             segs = render.flatten(accumulator_of(rec.return_term()))
             col = [s for s in segs if s[0] == "alt" and s[1] == T("attr", (SELF, "show_process"))]
             okc = bool(col) and any(sym.contains(h, T("call", (T("attr", (tp_t, "get")), (want, const(-1)), ())))
@@ -353,8 +372,14 @@ def check(repo: Repo, run: Run) -> None:
         if mname == "__init__":
             continue
         rec = kb_recs[mname]
+        # a coroutine: what it writes into the tables are values sent to it from elsewhere (`tid, process = yield`)
+        fed_by_send = any(isinstance(x, ast.Assign) and isinstance(x.value, ast.Yield) for x in ast.walk(fn)) or any(
+            isinstance(x, ast.NamedExpr) and isinstance(x.value, ast.Yield) for x in ast.walk(fn))
         for e in rec.effects:
             if not table_write(e):
+                continue
+            if fed_by_send and e.func.endswith("." + mname):
+                unresolved_writes.append(f"{mname} line {e.lineno} (a coroutine fed through send())")
                 continue
             if e.func.endswith("." + mname) and e.func in inlined_elsewhere and (mname.startswith("_") or any(
                     x.op == "param" and x != SELF for t_ in [e.value, e.key if isinstance(e.key, T) else None] + list(e.args)
@@ -379,6 +404,18 @@ def check(repo: Repo, run: Run) -> None:
             if unresolved_src:
                 unresolved_writes.append(f"{mname} line {e.lineno}")
                 continue
+            if from_log:
+                # the declaration a log record makes becomes visible with that record: it is stored in the very iteration
+                # that hands the record out (lines rendered for earlier records must not already see it)
+                ys_ = [r_ for r_ in rec.returns if r_.kind in ("yield", "yield_from")]
+                same_iter = any(e.loops and r_.loops and e.loops[-1] == r_.loops[-1] for r_ in ys_)
+                run.ob("R4", kb.module.name, mname, f"log record declares its thread/process when it is yielded (line {e.lineno})",
+                       same_iter,
+                       "" if same_iter else
+                       f"{mname} stores what the log records declare (line {e.lineno}) in a loop that does not yield the records: all "
+                       f"declarations are made before the first log line is produced, so an earlier line already names the process a "
+                       f"later record declares", line=e.lineno, nontrivial=False,
+                       witness="two log records of one thread, the second after an exec that renames the process")
             ident = "container:log-record" if from_log else (
                 "container:thread-map" if (from_map or is_map_clear)
                 else f"container:{mname}:{e.kind}:{e.key if e.kind == 'mut-call' else ''}")
